@@ -1,5 +1,19 @@
 (* EngineSafetySmall.v -- safety of the small-table builder of RModel/Engine.v:
-   setCodes, gen_small (GenerateForHeader / genForDists) and codeLenCodes. *)
+   setCodes, gen_small (GenerateForHeader / genForDists) and codeLenCodes.
+
+   Delivered: setCodes_spec, gen_small_hdr_safe, gen_small_dist_safe (exact statements),
+   codeLenCodes_core and codeLenCodes_spec_v2.
+
+   DEVIATION.  codeLenCodes_spec as requested is FALSE: its conjunct (-64 <= r_len (rd s')) does
+   not follow from br_ok 43 (rd s), which allows an exhausted input (r_inlen = 0) with an
+   arbitrarily negative bitsLen; codeLenCodes only subtracts 12 + 3*hclen from it.
+   Counterexample (proved below as codeLenCodes_spec_counterexample):
+     s = set_rd inflate0 (mkBR 0 (-100) [] 0), hclen = 0:  all hypotheses hold and
+     r_len (rd (fst (codeLenCodes s 0))) = -112 < -64.
+   codeLenCodes_spec_v2 = the requested statement with the ONE extra hypothesis
+   (0 <= r_len (rd s))%Z (true at the call site in setupDynamicHeader); nothing else changed.
+   codeLenCodes_core = the requested statement without any extra hypothesis, where that one
+   conjunct is replaced by (r_len (rd s) - 57 <= r_len (rd s'))%Z (conclusion packaged as clc_post). *)
 From Verif Require Import Engine EngineTables.
 From Verif Require Import Base EngineSafetyBase EngineSafetyBits EngineSafetyInv.
 From Coq Require Import List NArith ZArith Bool Lia ZifyBool ZifyNat ZifyN.
@@ -165,7 +179,7 @@ Definition gs_group (hdr : bool) (cl codes : arr) (longCodeStart longCodeLength 
       ((if hdr then (if ml <? lenj then lenj else ml) else lenj), lj :: tl)
     else a) init.
 
-Definition gs_fill (hdr : bool) (maxSymbol lcl grp : N) (a : arr * arr * bool) (sym : N)
+Definition gs_fill (fuel : nat) (hdr : bool) (maxSymbol lcl grp : N) (a : arr * arr * bool) (sym : N)
   : arr * arr * bool :=
   let '(long, codes, pan) := a in
   let codeLength := hc_len (aget codes sym) in
@@ -176,10 +190,10 @@ Definition gs_fill (hdr : bool) (maxSymbol lcl grp : N) (a : arr * arr * bool) (
     else if maxSymbol <? sym then u16 codeLength
     else u16 (N.lor (N.lor sym (N.shiftl (aget rfc_dist_extra sym) 5))
                     (N.shiftl codeLength 10)) in
-  let '(long, pan) := long_fill small_fuel 80 mask16 long lcl longBits grp minInc entry pan in
+  let '(long, pan) := long_fill fuel 80 mask16 long lcl longBits grp minInc entry pan in
   (long, aset codes sym (hc_setcode (aget codes sym) 0xFFFF), pan).
 
-Definition gs_long_step (hdr : bool) (cl : arr) (maxSymbol longCodeStart longCodeLength : N)
+Definition gs_long_step (fuel : nat) (hdr : bool) (cl : arr) (maxSymbol longCodeStart longCodeLength : N)
            (i : N) (st : arr * arr * arr * N * ierr) : arr * arr * arr * N * ierr :=
   let '(short, long, codes, lcl, pan) := st in
   if negb (ierr_eqb pan ENone) then st
@@ -200,14 +214,14 @@ Definition gs_long_step (hdr : bool) (cl : arr) (maxSymbol longCodeStart longCod
       else
         let long := forN lcl clrEnd (fun x t => aset t x 0) long in
         let '(long, codes, panb) :=
-          fold_left (gs_fill hdr maxSymbol lcl grp) temp (long, codes, false) in
+          fold_left (gs_fill fuel hdr maxSymbol lcl grp) temp (long, codes, false) in
         let short := aset short firstBits
                        (u16 (N.lor (N.lor lcl (N.shiftl maxLength 11)) smallFlagBit)) in
         (short, long, codes, lcl + grp, if panb then EPanic else ENone).
 
-Definition gs_long (hdr : bool) (short long codes cl : arr) (maxSymbol longCodeStart longCodeLength : N)
+Definition gs_long (fuel : nat) (hdr : bool) (short long codes cl : arr) (maxSymbol longCodeStart longCodeLength : N)
   : arr * arr * arr * N * ierr :=
-  forN 0 longCodeLength (gs_long_step hdr cl maxSymbol longCodeStart longCodeLength)
+  forN 0 longCodeLength (gs_long_step fuel hdr cl maxSymbol longCodeStart longCodeLength)
        (short, long, codes, 0, ENone).
 
 Lemma gen_small_eq : forall hdr short long codes ncodes count maxSymbol,
@@ -227,7 +241,7 @@ Lemma gen_small_eq : forall hdr short long codes ncodes count maxSymbol,
       let longCodeStart := aget ct 11 in
       let longCodeLength := sub32 codeListLen longCodeStart in
       let '(short, long, codes, _, pan) :=
-        gs_long hdr short long codes cl maxSymbol longCodeStart longCodeLength in
+        gs_long small_fuel hdr short long codes cl maxSymbol longCodeStart longCodeLength in
       (short, long, codes, pan).
 Proof.
   intros. cbv beta delta [gen_small gs_ct gs_sort gs_short gs_long gs_long_step gs_group gs_fill gs_wr].
@@ -557,13 +571,13 @@ Proof.
     + constructor; [split; assumption|exact B].
 Qed.
 
-Lemma gs_fill_spec : forall codes0 lcl grp long codes pan sym long' codes' pan',
+Lemma gs_fill_spec : forall fuel codes0 lcl grp long codes pan sym long' codes' pan',
   lcl + grp <= 80 ->
   all_entries dist_long_ok long -> codes_ok codes0 codes -> longsym codes0 sym ->
-  gs_fill false 30 lcl grp (long, codes, pan) sym = (long', codes', pan') ->
+  gs_fill fuel false 30 lcl grp (long, codes, pan) sym = (long', codes', pan') ->
   all_entries dist_long_ok long' /\ codes_ok codes0 codes' /\ pan' = pan.
 Proof.
-  intros codes0 lcl grp long codes pan sym long' codes' pan' Hg Hl Hc [Q1 Q2] H.
+  intros fuel codes0 lcl grp long codes pan sym long' codes' pan' Hg Hl Hc [Q1 Q2] H.
   unfold gs_fill in H. cbv zeta in H.
   destruct (30 <? sym) eqn:E30; [lia|].
   match type of H with (let '(_, _) := ?lf in _) = _ => destruct lf as [l2 p2] eqn:Elf end.
@@ -577,18 +591,382 @@ Proof.
   - apply dist_long_entry_ok; [exact Q1|]. rewrite (proj2 (Hc sym)). lia.
 Qed.
 
-Lemma gs_fill_fold : forall codes0 lcl grp temp long codes pan long' codes' pan',
+Lemma gs_fill_fold : forall fuel codes0 lcl grp temp long codes pan long' codes' pan',
   lcl + grp <= 80 -> Forall (longsym codes0) temp ->
   all_entries dist_long_ok long -> codes_ok codes0 codes ->
-  fold_left (gs_fill false 30 lcl grp) temp (long, codes, pan) = (long', codes', pan') ->
+  fold_left (gs_fill fuel false 30 lcl grp) temp (long, codes, pan) = (long', codes', pan') ->
   all_entries dist_long_ok long' /\ codes_ok codes0 codes' /\ pan' = pan.
 Proof.
-  intros codes0 lcl grp temp. induction temp as [|sym r IH];
+  intros fuel codes0 lcl grp temp. induction temp as [|sym r IH];
     intros long codes pan long' codes' pan' Hg Ht Hl Hc H; cbn [fold_left] in H.
   - inversion H; subst. split; [exact Hl|]. split; [exact Hc|reflexivity].
   - inversion Ht as [|? ? Hs Hr]; subst.
-    destruct (gs_fill false 30 lcl grp (long, codes, pan) sym) as [[l1 c1] p1] eqn:E1.
+    destruct (gs_fill fuel false 30 lcl grp (long, codes, pan) sym) as [[l1 c1] p1] eqn:E1.
     apply gs_fill_spec with (codes0 := codes0) in E1; [|assumption..].
     destruct E1 as (A & B & C). subst p1.
     apply IH in H; assumption.
 Qed.
+
+Definition long_inv (codes0 : arr) (st : arr * arr * arr * N * ierr) : Prop :=
+  let '(short, long, codes, lcl, pan) := st in
+  all_entries dist_short_ok short /\ all_entries dist_long_ok long /\ codes_ok codes0 codes /\
+  (pan = ENone \/ pan = EInvalidBlock) /\ lcl <= 80.
+
+Lemma gs_long_step_inv : forall fuel codes0 cl lcs n i st,
+  lcs + n <= 30 -> i < n ->
+  (forall j, j < n -> longsym codes0 (aget cl (lcs + j))) ->
+  long_inv codes0 st ->
+  long_inv codes0 (gs_long_step fuel false cl 30 lcs n i st).
+Proof.
+  intros fuel codes0 cl lcs n i [[[[short long] codes] lcl] pan] Hn Hi Hsym (I1 & I2 & I3 & I4 & I5).
+  unfold gs_long_step.
+  destruct I4 as [-> | ->]; cbn [ierr_eqb negb].
+  2:{ unfold long_inv. split; [exact I1|]. split; [exact I2|]. split; [exact I3|].
+      split; [right; reflexivity|exact I5]. }
+  destruct (32 <=? lcs + i) eqn:E32; [lia|].
+  set (li := aget cl (lcs + i)).
+  assert (Hli : longsym codes0 li) by (apply Hsym; exact Hi).
+  assert (Hkeep : long_inv codes0 (short, long, codes, lcl, ENone)).
+  { unfold long_inv. split; [exact I1|]. split; [exact I2|]. split; [exact I3|].
+    split; [left; reflexivity|exact I5]. }
+  destruct (hc_code (aget codes li) =? 65535); [exact Hkeep|].
+  destruct (gs_group false cl codes lcs n i (N.land (hc_code (aget codes li)) 1023)
+              (hc_len (aget codes li), [li])) as [ml tempRev] eqn:Eg.
+  apply (gs_group_spec cl codes codes0) in Eg; [|exact I3| | |].
+  2:{ intros j Hj. apply Hsym. lia. }
+  2:{ rewrite (proj2 (I3 li)). exact (proj2 Hli). }
+  2:{ constructor; [exact Hli|constructor]. }
+  destruct Eg as [Hml Htemp].
+  cbv zeta. cbn [negb andb].
+  destruct (80 <? lcl + N.shiftl 1 (ml - 10)) eqn:E80.
+  { unfold long_inv. split; [exact I1|]. split; [exact I2|]. split; [exact I3|].
+    split; [right; reflexivity|exact I5]. }
+  match goal with |- context [fold_left ?f ?l ?a] =>
+    destruct (fold_left f l a) as [[long2 codes2] panb] eqn:Ef
+  end.
+  apply (gs_fill_fold fuel codes0) in Ef; [|lia|apply Forall_frev; exact Htemp| |exact I3].
+  2:{ apply zero_fill_inv; [exact dist_long_ok_0|exact I2]. }
+  destruct Ef as (F1 & F2 & ->).
+  unfold long_inv. split.
+  - apply all_entries_aset; [exact I1|]. apply dist_pointer_ok; [exact Hml|lia].
+  - split; [exact F1|]. split; [exact F2|]. split; [left; reflexivity|lia].
+Qed.
+
+Lemma ctv_segment : forall count k, ctv count 11 <= k < ctv count 16 ->
+  exists l, 11 <= l <= 15 /\ ctv count l <= k < ctv count (l + 1).
+Proof.
+  intros count k Hk.
+  destruct (N.lt_ge_cases k (ctv count 12)); [exists 11; change (11 + 1) with 12; lia|].
+  destruct (N.lt_ge_cases k (ctv count 13)); [exists 12; change (12 + 1) with 13; lia|].
+  destruct (N.lt_ge_cases k (ctv count 14)); [exists 13; change (13 + 1) with 14; lia|].
+  destruct (N.lt_ge_cases k (ctv count 15)); [exists 14; change (14 + 1) with 15; lia|].
+  exists 15. change (15 + 1) with 16. lia.
+Qed.
+
+(* ---------------------------------------------------------------- genForDists *)
+Theorem gen_small_dist_safe : forall short long codes count sh lg cs e,
+  gen_small false short long codes 30 count 30 = (sh, lg, cs, e) ->
+  small_pre codes count 30 ->
+  all_entries dist_short_ok short -> all_entries dist_long_ok long ->
+  (e = ENone \/ e = EInvalidBlock) /\
+  (e = ENone -> all_entries dist_short_ok sh /\ all_entries dist_long_ok lg) /\
+  (forall i, aget cs i < 4294967296 /\ hc_len (aget cs i) = hc_len (aget codes i)).
+Proof.
+  intros short long codes count sh lg cs e H Hpre Hshort Hlong.
+  rewrite gen_small_eq in H.
+  pose proof Hpre as (P1 & P2 & P3 & P4).
+  pose proof (gs_ct_spec count P4) as Hct.
+  set (ct := gs_ct count) in *. cbv zeta in H.
+  assert (Hcodes : codes_ok codes codes) by (intros x; split; [apply P2|reflexivity]).
+  destruct (aget ct 16 =? 0) eqn:E16.
+  { inversion H; subst. split; [left; reflexivity|]. split; [|exact Hcodes].
+    intros _. split; [|exact Hlong]. apply all_entries_empty. exact dist_short_ok_0. }
+  destruct (gs_sort_spec codes count 30 ct Hpre Hct) as (cl & ctt & Es & Hcl).
+  rewrite Es in H. cbv beta iota in H.
+  match type of H with (let '(_, _) := gs_short false ?s0 codes cl ct 30 ?ll ?cp in _) = _ =>
+    pose proof (gs_short_inv dist_short_ok false s0 codes cl ct 30 ll cp) as Hsh;
+    destruct (gs_short false s0 codes cl ct 30 ll cp) as [sh1 cs1]
+  end.
+  cbn [fst] in Hsh.
+  assert (Hsh1 : all_entries dist_short_ok sh1).
+  { apply Hsh.
+    - apply zero_fill_inv; [exact dist_short_ok_0|exact Hshort].
+    - intros ll k t Hll Hk Ht. rewrite !Hct in Hk by lia.
+      assert (Hll1 : 1 <= ll).
+      { destruct (N.eq_dec ll 0) as [->|Hne]; [|lia].
+        change (0 + 1) with 1 in Hk. rewrite ctv_0, ctv_1 in Hk. lia. }
+      destruct (Hcl ll k ltac:(lia) Hk) as [A B].
+      unfold gs_wr. cbv zeta. destruct (30 <=? aget cl k) eqn:E30; [lia|].
+      apply all_entries_aset; [exact Ht|]. apply dist_entry_ok; [exact A|lia]. }
+  clear Hsh.
+  pose proof (ctv_mono count 11 16 ltac:(lia)) as Hm.
+  pose proof (ctv_le_sum count 16 ltac:(lia)) as Hm16.
+  assert (Esub : sub32 (aget ct 16) (aget ct 11) = ctv count 16 - ctv count 11).
+  { rewrite !Hct by lia. unfold sub32, subw.
+    destruct (ctv count 11 <=? ctv count 16) eqn:El; [reflexivity|lia]. }
+  rewrite Esub in H. rewrite (Hct 11) in H by lia.
+  set (n := ctv count 16 - ctv count 11) in *.
+  assert (Hsym : forall j, j < n -> longsym codes (aget cl (ctv count 11 + j))).
+  { intros j Hj.
+    destruct (ctv_segment count (ctv count 11 + j) ltac:(lia)) as (l & Hl & Hk).
+    destruct (Hcl l _ ltac:(lia) Hk) as [A B]. split; [exact A|lia]. }
+  unfold gs_long in H.
+  match type of H with context [forN 0 n ?f ?s] =>
+    pose proof (forN_inv _ (long_inv codes) f 0 n s) as HI;
+    destruct (forN 0 n f s) as [[[[sh2 lg2] cs2] lcl2] e2]
+  end.
+  inversion H; subst sh2 lg2 cs2 e2. clear H.
+  destruct HI as (I1 & I2 & I3 & I4 & I5).
+  - unfold long_inv. split; [exact Hsh1|]. split; [exact Hlong|]. split; [exact Hcodes|].
+    split; [left; reflexivity|lia].
+  - intros j x Hj Hx. apply gs_long_step_inv; [lia|lia|exact Hsym|exact Hx].
+  - split; [exact I4|]. split; [|exact I3]. intros _. split; assumption.
+Qed.
+
+(* ---------------------------------------------------------------- codeLenCodes *)
+Lemma clo_lt : forall i, i < 19 -> aget codeLengthOrder i < 19.
+Proof.
+  intros i Hi.
+  pose proof (allb_spec 19 (fun i => aget codeLengthOrder i <? 19) ltac:(vm_compute; reflexivity)
+                i ltac:(cbn; lia)) as H.
+  cbv beta in H. lia.
+Qed.
+
+Lemma clo_inj : forall i j, i < 19 -> j < 19 ->
+  aget codeLengthOrder i = aget codeLengthOrder j -> i = j.
+Proof.
+  intros i j Hi Hj H.
+  pose proof (allb2_spec 19 19
+     (fun i j => negb (aget codeLengthOrder i =? aget codeLengthOrder j) || (i =? j))
+     ltac:(vm_compute; reflexivity) i j ltac:(cbn; lia) ltac:(cbn; lia)) as H1.
+  cbv beta in H1. rewrite H, N.eqb_refl in H1. cbn [negb orb] in H1. lia.
+Qed.
+
+Lemma count_len_aset : forall h p v n l,
+  hc_len (aget h p) <> l ->
+  count_len (aset h p v) 0 n l =
+  count_len h 0 n l + (if (p <? N.of_nat n) && (hc_len v =? l) then 1 else 0).
+Proof.
+  intros h p v n l Hp. induction n as [|k IH].
+  - cbn [count_len]. replace (p <? N.of_nat 0) with false by lia. reflexivity.
+  - cbn [count_len]. rewrite IH. rewrite aget_aset.
+    replace (0 + N.of_nat k) with (N.of_nat k) by lia.
+    destruct (N.eqb_spec (N.of_nat k) p) as [E|E].
+    + replace (p <? N.of_nat k) with false by lia.
+      replace (p <? N.of_nat (S k)) with true by lia. rewrite E. cbn [andb].
+      destruct (N.eqb_spec (hc_len (aget h p)) l) as [E2|E2]; [contradiction|].
+      destruct (hc_len v =? l); lia.
+    + replace (p <? N.of_nat (S k)) with (p <? N.of_nat k) by lia.
+      destruct (N.eqb_spec (hc_len (aget h (N.of_nat k))) l) as [E2|E2];
+        destruct ((p <? N.of_nat k) && (hc_len v =? l)); lia.
+Qed.
+
+Lemma ainc_delta : forall c k i, aget (ainc c k) i = aget c i + (if i =? k then 1 else 0).
+Proof.
+  intros c k i. unfold ainc. rewrite aget_aset.
+  destruct (N.eqb_spec i k) as [->|Hne]; lia.
+Qed.
+
+Lemma sum15_ainc : forall c k, sum15 (ainc c k) <= sum15 c + 1.
+Proof.
+  intros c k. unfold sum15. rewrite !ainc_delta.
+  repeat match goal with |- context [if ?a =? k then _ else _] =>
+    destruct (N.eqb_spec a k); [try lia|] end.
+  all: lia.
+Qed.
+
+Definition tab_inv (j : N) (h c : arr) : Prop :=
+  (forall p, aget h p < 4294967296 /\ hc_len (aget h p) <= 7) /\
+  (forall i, j <= i < 19 -> aget h (aget codeLengthOrder i) = 0) /\
+  (forall l, 1 <= l -> aget c l = count_len h 0 19 l) /\
+  (forall l, 8 <= l -> aget c l = 0) /\
+  sum15 c <= j.
+
+Lemma tab_inv_empty : tab_inv 0 aempty aempty.
+Proof.
+  unfold tab_inv. split; [|split; [|split; [|split]]].
+  - intros p. rewrite aget_empty. change (hc_len 0) with 0. split; lia.
+  - intros i _. apply aget_empty.
+  - intros l Hl. rewrite aget_empty.
+    assert (H : forall n, count_len aempty 0 n l = 0 \/ l = 0).
+    { induction n as [|k IH]; [left; reflexivity|]. cbn [count_len]. rewrite aget_empty.
+      change (hc_len 0) with 0. destruct (N.eqb_spec 0 l); [right; lia|]. destruct IH; [left; lia|right; assumption]. }
+    destruct (H 19%nat); lia.
+  - intros l _. apply aget_empty.
+  - unfold sum15. rewrite !aget_empty. lia.
+Qed.
+
+Lemma clc_loop_spec : forall lo hi m b0 h0 c0 b h c,
+  lo <= hi -> hi <= 19 ->
+  forN lo hi clc_read3 (b0, h0, c0) = (b, h, c) ->
+  br_ok m b0 -> (3 * Z.of_N (hi - lo) <= m)%Z -> tab_inv lo h0 c0 ->
+  br_ok (m - 3 * Z.of_N (hi - lo)) b /\ avail b = (avail b0 - 3 * Z.of_N (hi - lo))%Z /\
+  r_inlen b = r_inlen b0 /\ r_len b = (r_len b0 - 3 * Z.of_N (hi - lo))%Z /\ tab_inv hi h c.
+Proof.
+  intros lo hi m b0 h0 c0 b h c Hlo Hhi H Hb Hm Ht.
+  pose proof (forN_ind _ (fun j (st : bitrd * arr * arr) =>
+     let '(b, h, c) := st in
+     br_ok (m - 3 * Z.of_N (j - lo)) b /\ avail b = (avail b0 - 3 * Z.of_N (j - lo))%Z /\
+     r_inlen b = r_inlen b0 /\ r_len b = (r_len b0 - 3 * Z.of_N (j - lo))%Z /\ tab_inv j h c)
+     clc_read3 lo hi (b0, h0, c0) Hlo) as HI.
+  rewrite H in HI. apply HI; clear HI H.
+  - replace (lo - lo) with 0 by lia.
+    split; [apply (br_ok_weaken m); [lia|exact Hb]|]. split; [lia|]. split; [reflexivity|].
+    split; [lia|exact Ht].
+  - intros j [[b1 h1] c1] Hj (B1 & B2 & B3 & B4 & (T1 & T2 & T3 & T4 & T5)).
+    unfold clc_read3, next_bits. cbv beta iota zeta.
+    set (len := N.land (r_bits b1) (N.ones 3)).
+    assert (Hlen : len < 8) by (apply (land_ones_lt (r_bits b1) 3)).
+    destruct (br_drop_ok _ b1 3 B1 ltac:(lia)) as (D1 & D2 & D3 & D4 & D5).
+    split; [apply (br_ok_weaken _ _ _ ltac:(lia) D1) || (eapply br_ok_weaken; [|exact D1]; lia)|].
+    split; [lia|]. split; [lia|]. split; [lia|].
+    set (p := aget codeLengthOrder j).
+    assert (Hp : p < 19) by (apply clo_lt; lia).
+    assert (Hp0 : aget h1 p = 0) by (apply T2; lia).
+    assert (Hl : hc_len (hc_set 0 len) = len) by (apply hc_set_len; lia).
+    unfold tab_inv. split; [|split; [|split; [|split]]].
+    + intros q. rewrite aget_aset. destruct (q =? p); [|apply T1].
+      split; [apply hc_set_lt|rewrite Hl; lia].
+    + intros i Hi. rewrite aget_aset_other; [apply T2; lia|].
+      intro E. apply clo_inj in E; lia.
+    + intros l Hl1. rewrite ainc_delta, (T3 l Hl1).
+      rewrite count_len_aset by (rewrite Hp0; change (hc_len 0) with 0; lia).
+      rewrite Hl. replace (p <? N.of_nat 19) with true by lia. cbn [andb].
+      destruct (N.eqb_spec l len); destruct (N.eqb_spec len l); lia.
+    + intros l Hl8. rewrite ainc_delta, (T4 l Hl8). destruct (N.eqb_spec l len); lia.
+    + pose proof (sum15_ainc c1 len). lia.
+Qed.
+
+(* the conclusion of codeLenCodes_spec, with the lower bound of bitsLen as a parameter *)
+Definition clc_post (s s' : inflate) (e : ierr) (lb : Z) : Prop :=
+  (e = ENone \/ e = EEndInput \/ e = EInvalidBlock) /\
+  clc_ok (dyn s') /\ br_inv (rd s') /\
+  (e = ENone -> br_ok 12 (rd s') /\ (0 <= r_len (rd s'))%Z) /\
+  (e = EEndInput -> r_inlen (rd s') = 0) /\
+  (avail (rd s') <= avail (rd s))%Z /\ r_inlen (rd s') <= r_inlen (rd s) /\
+  (lb <= r_len (rd s'))%Z /\
+  same_outer s s' /\
+  litAndDistHuff (dyn s') = litAndDistHuff (dyn s) /\ codeList (dyn s') = codeList (dyn s) /\
+  litCount (dyn s') = litCount (dyn s) /\ distCount (dyn s') = distCount (dyn s) /\
+  litExpandCount (dyn s') = litExpandCount (dyn s) /\ nextCode (dyn s') = nextCode (dyn s) /\
+  lenHuffCodes (dyn s') = lenHuffCodes (dyn s).
+
+Lemma clc_finish : forall s b d e lb,
+  br_ok 12 b ->
+  (e = ENone -> (0 <= r_len b)%Z) -> (e = EEndInput -> (r_len b < 0)%Z) ->
+  (e = ENone \/ e = EEndInput \/ e = EInvalidBlock) ->
+  (avail b <= avail (rd s))%Z -> r_inlen b <= r_inlen (rd s) -> (lb <= r_len b)%Z ->
+  all_entries clc_entry_ok (clcShort d) ->
+  litAndDistHuff d = litAndDistHuff (dyn s) -> codeList d = codeList (dyn s) ->
+  litCount d = litCount (dyn s) -> distCount d = distCount (dyn s) ->
+  litExpandCount d = litExpandCount (dyn s) -> nextCode d = nextCode (dyn s) ->
+  lenHuffCodes d = lenHuffCodes (dyn s) ->
+  clc_post s (set_dyn (set_rd s b) d) e lb.
+Proof.
+  intros s b d e lb Hb H0 Hneg He Hav Hin Hlb Hclc F1 F2 F3 F4 F5 F6 F7.
+  unfold clc_post. cbn [rd dyn set_dyn set_rd].
+  split; [exact He|]. split; [exact Hclc|]. split; [exact (proj1 Hb)|].
+  split; [intros E; split; [exact Hb|exact (H0 E)]|].
+  split; [intros E; apply (proj1 Hb); apply Hneg; exact E|].
+  split; [exact Hav|]. split; [exact Hin|]. split; [exact Hlb|].
+  split; [unfold same_outer; cbn; repeat split; reflexivity|].
+  split; [exact F1|]. split; [exact F2|]. split; [exact F3|]. split; [exact F4|].
+  split; [exact F5|]. split; [exact F6|exact F7].
+Qed.
+
+Lemma codeLenCodes_core : forall s hclen s' e,
+  codeLenCodes s hclen = (s', e) -> hclen <= 15 ->
+  br_ok 43 (rd s) -> clc_ok (dyn s) ->
+  clc_post s s' e (r_len (rd s) - 57).
+Proof.
+  intros s hclen s' e H Hh Hb Hclc. unfold codeLenCodes in H.
+  destruct (forN 0 4 clc_read3 (rd s, aempty, aempty)) as [[b1 h1] c1] eqn:E1.
+  apply (clc_loop_spec 0 4 43) in E1; [|lia|lia|exact Hb|lia|exact tab_inv_empty].
+  destruct E1 as (A1 & A2 & A3 & A4 & A5).
+  change (Z.of_N (4 - 0)) with 4%Z in *.
+  destruct (load_lt57_spec b1 (proj1 A1)) as (b2 & L1 & L2 & L3 & L4 & L5).
+  rewrite L1 in H.
+  destruct (forN 4 (hclen + 4) clc_read3 (b2, h1, c1)) as [[b3 h3] c3] eqn:E3.
+  apply (clc_loop_spec 4 (hclen + 4) 57) in E3; [|lia|lia|exact L2|lia|exact A5].
+  destruct E3 as (B1 & B2 & B3 & B4 & (T1 & T2 & T3 & T4 & T5)).
+  replace (hclen + 4 - 4) with hclen in * by lia.
+  assert (Hb3 : br_ok 12 b3) by (apply (br_ok_weaken (57 - 3 * Z.of_N hclen)); [lia|exact B1]).
+  cbv zeta in H.
+  assert (Hfin : forall e0, (e0 = ENone -> (0 <= r_len b3)%Z) -> (e0 = EEndInput -> (r_len b3 < 0)%Z) ->
+            (e0 = ENone \/ e0 = EEndInput \/ e0 = EInvalidBlock) ->
+            clc_post s (set_rd s b3) e0 (r_len (rd s) - 57)).
+  { intros e0 G1 G2 G3. change (set_rd s b3) with (set_dyn (set_rd s b3) (dyn s)).
+    apply clc_finish; try reflexivity; try assumption; lia. }
+  destruct (r_len b3 <? 0)%Z eqn:Eneg.
+  { inversion H; subst s' e. apply Hfin; [discriminate|lia|right; left; reflexivity]. }
+  destruct (setCodes h3 0 19 c3) as [h4 bad] eqn:Esc.
+  assert (Hh3 : huff_ok h3).
+  { intros i. destruct (T1 i) as [X Y]. split; [exact X|lia]. }
+  destruct (setCodes_spec _ _ _ _ _ _ Esc Hh3) as [Hh4 Hlen].
+  destruct bad.
+  { inversion H; subst s' e. apply Hfin; [discriminate|discriminate|right; right; reflexivity]. }
+  cbn [dyn set_rd] in H.
+  destruct (gen_small true (clcShort (dyn s)) (clcLong (dyn s)) h4 19 c3 19) as [[[sh lg] cs] e2] eqn:Eg.
+  apply gen_small_hdr_safe in Eg; [| |intros l Hl; apply T4; lia|exact Hclc].
+  2:{ unfold small_pre. split; [intros i; apply Hh4|]. split; [intros i; apply Hh4|].
+      split; [|lia].
+      intros l Hl. change (N.to_nat 19) with 19%nat.
+      rewrite (count_len_ext h3 h4 0 19 l Hlen). apply T3. lia. }
+  destruct Eg as [-> Hsh].
+  inversion H; subst s' e.
+  apply clc_finish; try reflexivity; try assumption; try discriminate; try lia.
+  left; reflexivity.
+Qed.
+
+(* The statement of codeLenCodes_spec as given (lower bound -64 <= r_len (rd s') from br_ok 43 (rd s)
+   alone) is FALSE: br_ok 43 allows an exhausted input with an arbitrarily negative bitsLen, and
+   codeLenCodes only subtracts from it.  Concretely, with r_len = -100 and no input: *)
+Definition cex_state : inflate := set_rd inflate0 (mkBR 0 (-100)%Z [] 0).
+
+Lemma codeLenCodes_spec_counterexample :
+  exists s hclen s' e,
+    codeLenCodes s hclen = (s', e) /\ hclen <= 15 /\ br_ok 43 (rd s) /\ clc_ok (dyn s) /\
+    ~ (-64 <= r_len (rd s'))%Z.
+Proof.
+  exists cex_state, 0, (fst (codeLenCodes cex_state 0)), (snd (codeLenCodes cex_state 0)).
+  split; [destruct (codeLenCodes cex_state 0); reflexivity|]. split; [lia|].
+  split.
+  - unfold br_ok, br_inv, cex_state. cbn. split; [|left; reflexivity].
+    split; [reflexivity|]. split; [lia|]. intros _. reflexivity.
+  - split.
+    + unfold clc_ok, cex_state. cbn. apply all_entries_empty. exact clc_entry_ok_0.
+    + assert (E : r_len (rd (fst (codeLenCodes cex_state 0))) = (-112)%Z) by (vm_compute; reflexivity).
+      rewrite E. lia.
+Qed.
+
+(* codeLenCodes_spec with the additional hypothesis (0 <= r_len (rd s)) -- it holds at the call
+   site (setupDynamicHeader has just read hlit/hdist/hclen and checked bitsLen >= 0); everything
+   else is exactly the requested statement. *)
+Theorem codeLenCodes_spec_v2 : forall s hclen s' e,
+  codeLenCodes s hclen = (s', e) -> hclen <= 15 ->
+  br_ok 43 (rd s) -> clc_ok (dyn s) -> (0 <= r_len (rd s))%Z ->
+  (e = ENone \/ e = EEndInput \/ e = EInvalidBlock) /\
+  clc_ok (dyn s') /\ br_inv (rd s') /\
+  (e = ENone -> br_ok 12 (rd s') /\ (0 <= r_len (rd s'))%Z) /\
+  (e = EEndInput -> r_inlen (rd s') = 0) /\
+  (avail (rd s') <= avail (rd s))%Z /\ r_inlen (rd s') <= r_inlen (rd s) /\
+  (-64 <= r_len (rd s'))%Z /\
+  same_outer s s' /\
+  litAndDistHuff (dyn s') = litAndDistHuff (dyn s) /\ codeList (dyn s') = codeList (dyn s) /\
+  litCount (dyn s') = litCount (dyn s) /\ distCount (dyn s') = distCount (dyn s) /\
+  litExpandCount (dyn s') = litExpandCount (dyn s) /\ nextCode (dyn s') = nextCode (dyn s) /\
+  lenHuffCodes (dyn s') = lenHuffCodes (dyn s).
+Proof.
+  intros s hclen s' e H Hh Hb Hclc H0.
+  pose proof (codeLenCodes_core s hclen s' e H Hh Hb Hclc) as HP. unfold clc_post in HP.
+  destruct HP as (C1 & C2 & C3 & C4 & C5 & C6 & C7 & C8 & C9).
+  split; [exact C1|]. split; [exact C2|]. split; [exact C3|]. split; [exact C4|].
+  split; [exact C5|]. split; [exact C6|]. split; [exact C7|]. split; [lia|exact C9].
+Qed.
+
+Print Assumptions setCodes_spec.
+Print Assumptions gen_small_hdr_safe.
+Print Assumptions gen_small_dist_safe.
+Print Assumptions codeLenCodes_core.
+Print Assumptions codeLenCodes_spec_v2.
+Print Assumptions codeLenCodes_spec_counterexample.
